@@ -278,8 +278,11 @@ class InternalCompiler(Compiler):
     def compile_symbol(self, qc, expr, dest=None, sym=None) -> int:
         # 1. If a qubit is mapped to another qubit (iff sym.name is a _ret)
         if sym is not None and sym.name.startswith("_ret"):
-            # 1.1 Xor mapping to a new qubit if the expr is an input
-            if expr.name in self.input_symbols:
+            # 1.1 Xor mapping to a new qubit if the expr is an input, or another name
+            # of an input qubit (c = a; return c)
+            if expr.name in self.input_symbols or (
+                expr.name in qc and qc[expr.name] < len(self.input_symbols)
+            ):
                 iret = qc.add_qubit(sym.name)
                 qc.cx(qc[expr.name], iret)
                 return iret
